@@ -47,17 +47,17 @@ class C17(Scenario):
     )
     components = {
         "real": ["watchdog.utils.delayed_queue.DelayedQueue"],
-        "simulated": ["threading.Lock/Condition (sim primitives)", "time.time/time.sleep (virtual clock)", "thread scheduling (seeded, line/byte-code pre-emption via sys.monitoring)"],
+        "simulated": ["threading.Lock/Condition (sim primitives)", "time.monotonic/time.time/time.sleep (virtual clock; the wall clock may be stepped)", "thread scheduling (seeded; pre-emption before every statement, instrumented at import)"],
     }
     assumptions = [
         "deque/dict operations implemented in C are atomic under the GIL and are treated as atomic",
-        "pre-emption granularity: source line in delayed_queue.py, byte-code inside DelayedQueue.get/close/remove/put",
+        "pre-emption granularity: statement (and operand of and/or) in delayed_queue.py",
         "insertion time of an element is bounded below by the virtual time at which put() was invoked",
     ]
     budget = {"quick": 20, "thorough": 300, "minimise": 60}
     design_ref = "DESIGN.md 3.3, 4/C17"
     level_text = ("Seeded search over producer/remover/closer programs x virtual-time gaps around the delay boundary x thread interleavings "
-                  "(sticky/random/PCT(d<=3) with line and byte-code pre-emption inside delayed_queue.py) of the real DelayedQueue; oracle over the recorded "
+                  "(sticky/random/PCT(d<=3) with statement-level pre-emption inside delayed_queue.py) of the real DelayedQueue; oracle over the recorded "
                   "history: FIFO, exactly-once (get xor remove), never early, exact hand-out time when nothing is removed, nothing lost at drain, close() unblocks "
                   "(scheduler deadlock verdict) and a later get() returns the end marker at once. Sampling, not proof; PCT gives a per-run hit probability for depth<=3 races.")
     level_note = "trusts: CPython GIL atomicity of deque operations; sim primitives mirror threading.Lock/Condition semantics (FIFO wake-up, no spurious wake-ups)"
